@@ -62,6 +62,7 @@ async fn serve() {
             "web" => web_cmd(&req).await,
             "tui" => tui(&req),
             "tui2" => tui2(&req),
+            "tui_pty" => tui_pty(&req).await,
             "source" => source(&req),
             "source_toml" => source_toml(&req),
             other => json!({"error": format!("unknown command {other}")}),
@@ -970,6 +971,199 @@ fn tui2(req: &Value) -> Value {
         reply["fan"] = Value::Array(outs);
     }
     reply
+}
+
+// ------------------------------- tui_pty: terminal bytes -> Event -> update (C17)
+
+#[cfg(target_os = "linux")]
+mod pty {
+    use std::os::raw::{c_char, c_int};
+    extern "C" {
+        pub fn posix_openpt(flags: c_int) -> c_int;
+        pub fn grantpt(fd: c_int) -> c_int;
+        pub fn unlockpt(fd: c_int) -> c_int;
+        pub fn ptsname_r(fd: c_int, buf: *mut c_char, len: usize) -> c_int;
+        pub fn dup2(a: c_int, b: c_int) -> c_int;
+        pub fn write(fd: c_int, buf: *const u8, n: usize) -> isize;
+    }
+    pub const O_RDWR: c_int = 2;
+    pub const O_NOCTTY: c_int = 0o400;
+
+    /// Opens a pseudo-terminal, puts its slave side on fd 0 and returns the master.
+    /// The master is never closed (a hung-up tty makes the event reader spin).
+    pub fn open_on_stdin() -> Result<c_int, String> {
+        unsafe {
+            let master = posix_openpt(O_RDWR | O_NOCTTY);
+            if master < 0 {
+                return Err("posix_openpt failed".into());
+            }
+            if grantpt(master) != 0 || unlockpt(master) != 0 {
+                return Err("grantpt/unlockpt failed".into());
+            }
+            let mut name = [0 as c_char; 128];
+            if ptsname_r(master, name.as_mut_ptr(), name.len()) != 0 {
+                return Err("ptsname_r failed".into());
+            }
+            let path = std::ffi::CStr::from_ptr(name.as_ptr()).to_string_lossy().to_string();
+            let slave = std::fs::OpenOptions::new()
+                .read(true)
+                .write(true)
+                .open(&path)
+                .map_err(|e| format!("open {path}: {e}"))?;
+            use std::os::unix::io::IntoRawFd;
+            let fd = slave.into_raw_fd();
+            if dup2(fd, 0) < 0 {
+                return Err("dup2 failed".into());
+            }
+            Ok(master)
+        }
+    }
+
+    pub fn send(master: c_int, bytes: &[u8]) -> bool {
+        let mut done = 0;
+        while done < bytes.len() {
+            let n = unsafe { write(master, bytes[done..].as_ptr(), bytes.len() - done) };
+            if n <= 0 {
+                return false;
+            }
+            done += n as usize;
+        }
+        true
+    }
+}
+
+/// Reads events from the real EventHandler and applies them with the real update() until
+/// the sentinel key (F5, which update() ignores) arrives or, with `first_key`, until one key
+/// event has been handled.  Returns (events, completed, panic text).
+#[cfg(target_os = "linux")]
+async fn pty_collect(
+    events: &mut crate::tui::EventHandler,
+    app: &Mutex<Jet1090>,
+    first_key: bool,
+    limit: std::time::Duration,
+) -> (Vec<String>, bool, Option<String>) {
+    let deadline = tokio::time::Instant::now() + limit;
+    let mut seen = Vec::new();
+    loop {
+        let ev = match tokio::time::timeout_at(deadline, events.next()).await {
+            Ok(Ok(ev)) => ev,
+            _ => return (seen, false, None),
+        };
+        let mut is_key = false;
+        match ev {
+            Event::Key(k) => {
+                if k.code == KeyCode::F(5) {
+                    return (seen, true, None);
+                }
+                is_key = true;
+                seen.push(format!("{:?}/{:?}", k.code, k.kind));
+            }
+            Event::Tick(w) => seen.push(format!("Tick({w})")),
+            Event::Error => seen.push("Error".to_string()),
+        }
+        if let Err(p) = tui_press(app, ev) {
+            return (seen, true, Some(p));
+        }
+        if first_key && is_key {
+            return (seen, true, None);
+        }
+    }
+}
+
+/// {"cmd":"tui_pty","cases":[{"n":rows,"tracked":m,"strokes":[{"chunks":[hex,...],"wait_key":[bool,...]}]}]}
+/// Each stroke is what a terminal sends for one physical key stroke; it goes through a
+/// pseudo-terminal, crossterm's parser and the real tui::EventHandler, and every Event that
+/// comes out is applied with the real update().  After each stroke: the events delivered and
+/// the state.  Must be the only (last) request of a driver process: it takes over fd 0 and
+/// ends the process.
+async fn tui_pty(req: &Value) -> Value {
+    #[cfg(not(target_os = "linux"))]
+    {
+        let _ = req;
+        return json!({"cmd": "tui_pty", "skipped": "no pseudo-terminal support on this platform"});
+    }
+    #[cfg(target_os = "linux")]
+    {
+        let reply = tui_pty_linux(req).await;
+        println!("{}", reply);
+        let _ = std::io::stdout().flush();
+        std::process::exit(0);
+    }
+}
+
+#[cfg(target_os = "linux")]
+async fn tui_pty_linux(req: &Value) -> Value {
+    let master = match pty::open_on_stdin() {
+        Ok(m) => m,
+        Err(e) => return json!({"cmd": "tui_pty", "skipped": e}),
+    };
+    if let Err(e) = crossterm::terminal::enable_raw_mode() {
+        return json!({"cmd": "tui_pty", "skipped": format!("raw mode: {e}")});
+    }
+    let mut events = crate::tui::EventHandler::new(100);
+    let limit = std::time::Duration::from_millis(req["limit_ms"].as_u64().unwrap_or(10000));
+    let sentinel = b"\x1b[15~";
+    let mut out_cases = Vec::new();
+    for case in req["cases"].as_array().cloned().unwrap_or_default().iter() {
+        let n = case["n"].as_u64().unwrap_or(0) as usize;
+        let m = case["tracked"].as_u64().unwrap_or(0) as usize;
+        let app = Mutex::new(new_tui_app(n, m, 100));
+        let init = tui_state(&app.try_lock().unwrap());
+        let mut states = Vec::new();
+        for stroke in case["strokes"].as_array().cloned().unwrap_or_default().iter() {
+            let chunks = stroke["chunks"].as_array().cloned().unwrap_or_default();
+            let mut delivered: Vec<String> = Vec::new();
+            let mut failure: Option<Value> = None;
+            for (ci, ch) in chunks.iter().enumerate() {
+                let bytes = hex::decode(ch.as_str().unwrap_or("")).unwrap_or_default();
+                if !pty::send(master, &bytes) {
+                    failure = Some(json!({"lost": "write to the pseudo-terminal failed"}));
+                    break;
+                }
+                if stroke["wait_key"][ci].as_bool() == Some(true) {
+                    let (seen, done, panic) = pty_collect(&mut events, &app, true, limit).await;
+                    delivered.extend(seen);
+                    if let Some(p) = panic {
+                        failure = Some(json!({"panic": p}));
+                        break;
+                    }
+                    if !done {
+                        failure = Some(json!({"lost": "no key event within the time limit"}));
+                        break;
+                    }
+                }
+            }
+            if failure.is_none() {
+                if !pty::send(master, sentinel) {
+                    failure = Some(json!({"lost": "write to the pseudo-terminal failed"}));
+                } else {
+                    let (seen, done, panic) = pty_collect(&mut events, &app, false, limit).await;
+                    delivered.extend(seen);
+                    if let Some(p) = panic {
+                        failure = Some(json!({"panic": p}));
+                    } else if !done {
+                        failure = Some(json!({"lost": "sentinel not seen within the time limit"}));
+                    }
+                }
+            }
+            match failure {
+                Some(mut f) => {
+                    f["events"] = json!(delivered);
+                    states.push(f);
+                    break;
+                }
+                None => {
+                    let mut st = tui_state(&app.try_lock().unwrap());
+                    st["ok"] = json!(true);
+                    st["events"] = json!(delivered);
+                    states.push(st);
+                }
+            }
+        }
+        out_cases.push(json!({"init": init, "states": states}));
+    }
+    let _ = crossterm::terminal::disable_raw_mode();
+    json!({"cmd": "tui_pty", "cases": out_cases})
 }
 
 // --------------------------------------------------------------- source (C16)
